@@ -150,6 +150,46 @@ end order
 
 /-! ### The O(1) guess in exact arithmetic -/
 
+section anyguess
+variable {α : Type} [LinearOrder α] [Cmp α] [LawfulCmp α]
+  [Add α] [Sub α] [Mul α] [Div α] [NatCast α] [ToUsize α]
+
+/-- **C11_of_guess**: whatever the arithmetic of the element type, `get_lower_index` returns the
+    bracket as soon as the O(1) guess of a query strictly inside the range is an index of the axis. -/
+theorem C11_of_guess (xs : List α) (q : α) (hs : StrictInc xs)
+    (hguess : ∀ (h0 : 0 < xs.length), xs[0] < q → q < xs[xs.length - 1] →
+      ∃ g, indexGuess xs q = some g ∧ g < xs.length) :
+    ∃ i, lowerIndex xs q = .ok i ∧ Bracket xs q i := by
+  have hn := hs.1
+  have h0 : 0 < xs.length := by omega
+  have hlast : xs.length - 1 < xs.length := by omega
+  unfold lowerIndex
+  by_cases c1 : xs[0] < q
+  · by_cases c2 : q < xs[xs.length - 1]
+    · obtain ⟨g, hg, hg2⟩ := hguess h0 c1 c2
+      rw [hg]
+      exact C11_bracket xs q g hs hg2
+    · have c2' := not_lt.mp c2
+      have key : ∀ g', lowerIndexWith xs q g' = lowerIndexWith xs q (some 0) := by
+        intro g'
+        unfold lowerIndexWith
+        simp only [List.getElem?_eq_getElem h0, List.getElem?_eq_getElem hlast]
+        have : Cmp.ge q xs[xs.length - 1] = true := (cmp_ge _ _).mpr c2'
+        simp only [this, if_true]
+      rw [key]
+      exact C11_bracket xs q 0 hs h0
+  · have c1' := not_lt.mp c1
+    have key : ∀ g', lowerIndexWith xs q g' = lowerIndexWith xs q (some 0) := by
+      intro g'
+      unfold lowerIndexWith
+      simp only [List.getElem?_eq_getElem h0]
+      have : Cmp.le q xs[0] = true := (cmp_le _ _).mpr c1'
+      simp only [this, if_true]
+    rw [key]
+    exact C11_bracket xs q 0 hs h0
+
+end anyguess
+
 /-- `cast::<T, usize>` truncates non-negative values that fit -/
 class LawfulToUsize (α : Type) [Field α] [LinearOrder α] [ToUsize α] : Prop where
   spec : ∀ x : α, 0 ≤ x → x < (2 : α) ^ 64 →
@@ -208,35 +248,10 @@ theorem C11_guess (xs : List α) (q : α) (hs : StrictInc xs) (hlen : xs.length 
 
 /-- **C11_exact**: `get_lower_index` returns the bracket for every axis and every query. -/
 theorem C11_exact (xs : List α) (q : α) (hs : StrictInc xs) (hlen : xs.length < 2 ^ 64) :
-    ∃ i, lowerIndex xs q = .ok i ∧ Bracket xs q i := by
-  have hn := hs.1
-  have h0 : 0 < xs.length := by omega
-  have hlast : xs.length - 1 < xs.length := by omega
-  unfold lowerIndex
-  by_cases c1 : xs[0] < q
-  · by_cases c2 : q < xs[xs.length - 1]
-    · obtain ⟨g, hg, hg2⟩ := C11_guess xs q hs hlen c1 c2
-      rw [hg]
-      exact C11_bracket xs q g hs (by omega)
-    · -- at or above the last knot: the guess is never looked at
-      have c2' := not_lt.mp c2
-      have key : ∀ g', lowerIndexWith xs q g' = lowerIndexWith xs q (some 0) := by
-        intro g'
-        unfold lowerIndexWith
-        simp only [List.getElem?_eq_getElem h0, List.getElem?_eq_getElem hlast]
-        have : Cmp.ge q xs[xs.length - 1] = true := (cmp_ge _ _).mpr c2'
-        simp only [this, if_true]
-      rw [key]
-      exact C11_bracket xs q 0 hs h0
-  · have c1' := not_lt.mp c1
-    have key : ∀ g', lowerIndexWith xs q g' = lowerIndexWith xs q (some 0) := by
-      intro g'
-      unfold lowerIndexWith
-      simp only [List.getElem?_eq_getElem h0]
-      have : Cmp.le q xs[0] = true := (cmp_le _ _).mpr c1'
-      simp only [this, if_true]
-    rw [key]
-    exact C11_bracket xs q 0 hs h0
+    ∃ i, lowerIndex xs q = .ok i ∧ Bracket xs q i :=
+  C11_of_guess xs q hs (fun _ c1 c2 => by
+    obtain ⟨g, hg, hg2⟩ := C11_guess xs q hs hlen c1 c2
+    exact ⟨g, hg, by omega⟩)
 
 end field
 
